@@ -52,7 +52,9 @@ def run_flux(mutate=None):
 
 def _bounded_quick():
     from checks import physics_native as pn
-    return pn.units_cases(0, reduced=True)
+    b1, n1 = pn.units_cases(0, reduced=True)
+    b2, n2 = pn.history_cases(0)
+    return b1 + b2, n1 + n2
 
 
 def units():
